@@ -4782,11 +4782,11 @@ func (stmt *SelectStmt) genScanSpecs(tx *SQLTx, params map[string]interface{}) (
 	}
 
 	var descOrder bool
-	if len(groupByCols) > 0 && sortingIndex.coversOrdCols(groupByCols, rangesByColID) {
+	if len(groupByCols) > 0 && ordExpsOnTable(groupByCols, tableRef.Alias()) && sortingIndex.coversOrdCols(groupByCols, rangesByColID) {
 		groupByCols = nil
 	}
 
-	if len(groupByCols) == 0 && len(orderByCols) > 0 && sortingIndex.coversOrdCols(orderByCols, rangesByColID) {
+	if len(groupByCols) == 0 && len(orderByCols) > 0 && ordExpsOnTable(orderByCols, tableRef.Alias()) && sortingIndex.coversOrdCols(orderByCols, rangesByColID) {
 		descOrder = orderByCols[0].descOrder
 		orderByCols = nil
 	}
@@ -4817,6 +4817,22 @@ func (stmt *SelectStmt) genScanSpecs(tx *SQLTx, params map[string]interface{}) (
 	}, nil
 }
 
+// ordExpsOnTable reports whether the ordering columns belong to the scanned
+// table (alias asTable): the order of an index scan says nothing about a column
+// of a joined table, even when that table has a column of the same name.
+func ordExpsOnTable(ordExps []*OrdExp, asTable string) bool {
+	for _, e := range ordExps {
+		sel := e.AsSelector()
+		if sel == nil {
+			continue
+		}
+		if _, t, _ := sel.resolve(asTable); t != asTable {
+			return false
+		}
+	}
+	return true
+}
+
 func (stmt *SelectStmt) selectSortingIndex(groupByCols, orderByCols []*OrdExp, table *Table, rangesByColId map[uint32]*typedValueRange) *Index {
 	sortCols := groupByCols
 	if len(sortCols) == 0 {
@@ -4828,7 +4844,7 @@ func (stmt *SelectStmt) selectSortingIndex(groupByCols, orderByCols []*OrdExp, t
 	}
 
 	for _, idx := range table.indexes {
-		if idx.coversOrdCols(sortCols, rangesByColId) {
+		if ordExpsOnTable(sortCols, stmt.ds.Alias()) && idx.coversOrdCols(sortCols, rangesByColId) {
 			return idx
 		}
 	}
